@@ -234,10 +234,11 @@ func c17Rate(r *Run, concurrent, aligned bool) {
 		type op struct {
 			gap    time.Duration
 			tokens int
+			fails  byte // what the handler behind the limiter does with an admitted request: 0 ok, 'E' error, 'P' panic
 		}
 		var ops []op
 		for i := 0; i < nops; i++ {
-			o := op{gap: r.PlanDur(0, 0, unit/3, unit, 3*unit, 20*unit, 500*unit), tokens: r.PlanInt(1, 1, 1, 2, 3, 7, 50)}
+			o := op{gap: r.PlanDur(0, 0, unit/3, unit, 3*unit, 20*unit, 500*unit), tokens: r.PlanInt(1, 1, 1, 2, 3, 7, 50), fails: []byte{0, 0, 'E', 'P'}[r.Plan(4)]}
 			if aligned {
 				// every task asks for one token at the same instants: lost updates add up
 				o = op{gap: unit, tokens: 1}
@@ -262,17 +263,39 @@ func c17Rate(r *Run, concurrent, aligned bool) {
 				// (later requests may legitimately find the bucket in debt: every request,
 				// admitted or rejected, is charged in full)
 				idleBefore := lastActivity < 0
-				switch via {
-				case "acquire":
-					err = l.Acquire(context.Background(), tok)
-				case "io":
-					_, err = l.IOHandler(context.Background(), make([]byte, tok), func(ctx context.Context, request []byte) ([]byte, error) { return nil, nil })
-				case "invoke":
-					tok = 1
-					_, err = l.InvokeHandler(context.Background(), "f", nil, func(ctx context.Context, name string, args []interface{}) ([]interface{}, error) { return nil, nil })
+				// a request that reached the handler behind the limiter was admitted, whatever becomes of it there
+				passed := false
+				downstream := func() error {
+					passed = true
+					switch o.fails {
+					case 'E':
+						return errors.New("downstream failure")
+					case 'P':
+						panic("downstream panic")
+					}
+					return nil
 				}
+				func() {
+					defer func() {
+						if p := recover(); p != nil && !passed {
+							panic(p)
+						}
+					}()
+					switch via {
+					case "acquire":
+						err = l.Acquire(context.Background(), tok)
+					case "io":
+						_, err = l.IOHandler(context.Background(), make([]byte, tok), func(ctx context.Context, request []byte) ([]byte, error) { return nil, downstream() })
+					case "invoke":
+						tok = 1
+						_, err = l.InvokeHandler(context.Background(), "f", nil, func(ctx context.Context, name string, args []interface{}) ([]interface{}, error) { return nil, downstream() })
+					}
+				}()
 				now := sim.Now()
 				lastActivity = now
+				if passed {
+					err = nil
+				}
 				if err != nil {
 					rejs = append(rejs, rej{now, tok})
 					sim.Event("rejected", t, tok, fmt.Sprint(err))
